@@ -6,7 +6,7 @@ ID = "C19"
 LEVEL = "exploration"
 RULE = ("split/break: network R-p1-J1-p2-J2-p3-T (+ J2-p4-J3 dead end) in the variants {plain, p2 with two vertices, p2 with one vertex, "
         "p3 with check valve, p2 initially closed, time control on p2, minor loss on p2, pipe from the reservoir / into the tank, pipe joining reservoir and tank directly} x "
-        "EVERY pipe x fraction {0, 0.25, 1/3, 0.5, 1} x add_pipe_at_end {T,F} x return_copy {T,F} x {split, break}.  skeletonize: 12 "
+        "EVERY pipe x fraction {0, 0.25, 1/3, 0.5, 1} x add_pipe_at_end {T,F} x return_copy {T,F} x {split, break}.  skeletonize: 14 "
         "networks with branch / series / parallel patterns next to tanks, pumps, valves and controlled elements x all diameter "
         "assignments over {0.1, 0.3} (thorough {0.1,0.2,0.3}) x thresholds {0.05, 0.1, 0.2, 0.3} x on/off combinations of branch/"
         "series/parallel x max_cycles {None, 1} x exclusion lists {none, each pipe, each junction} x use_epanet {F, T}; demands "
@@ -239,6 +239,15 @@ def sk_nets():
                            [P("a", "R", "J1"), P("b", "J1", "J2"), P("c", "J2", "J3"), P("d", "J2", "J4")])
     N["series_neg"] = spec([R("R"), J("J1", 0, dem(0.01, "P2")), J("J2", 1, dem(-0.003, "P3")), J("J3", 2, [[0.0, None, None], [0.004, "P2", "x"]]), T("T")],
                            [P("a", "R", "J1"), P("b", "J1", "J2", L=200.0), P("c", "J2", "J3", L=500.0), P("d", "J3", "T")])
+    # node and link names drawn from the same strings (separate namespaces, as in EPANET's example networks): controls refer
+    # to junction J3 and to pipe J3
+    N["control_same_labels"] = spec([R("R"), J("J1", 0, dem(0.01, "P2")), J("J2", 1, dem(0.008, "P3")), J("J3", 2, dem(0.004, "P2")), J("J4", 1, dem(0.002, "P3"))],
+                                    [P("J1", "R", "J1"), P("J2", "J1", "J2"), P("J3", "J2", "J3"), P("J4", "J3", "J4")],
+                                    controls=[{"kind": "time", "t": 3600, "link": "J3", "value": "CLOSED"}, {"kind": "pressure", "node": "J3", "rel": "<", "thr": 5.0, "link": "J1", "value": "OPEN"}])
+    N["control_same_labels2"] = spec([R("R"), J("J1", 0, dem(0.01, "P2")), J("J2", 1, dem(0.008, "P3")), J("J3", 2, dem(0.004, "P2")), J("J4", 1, dem(0.002, "P3"))],
+                                     [P("J1", "R", "J1"), P("J2", "J1", "J2"), P("J3", "J2", "J3"), P("J4", "J3", "J4")],
+                                     controls=[{"kind": "pressure", "node": "J4", "rel": "<", "thr": 5.0, "link": "J1", "value": "OPEN"}, {"kind": "time", "t": 3600, "link": "J4", "value": "CLOSED"},
+                                               {"kind": "time", "t": 7200, "link": "J2", "value": "CLOSED"}])
     # a valve / a pump as the ONLY link of a dead-end junction (branch trimming works on dead ends)
     N["valve_leaf"] = spec([R("R"), J("J1", 0, dem(0.01, "P2")), J("J2", 1, dem(0.008, "P3")), J("J3", 2, dem(0.004, "P2")), J("J4", 1, dem(0.002, None))],
                            [P("a", "R", "J1"), P("b", "J1", "J2"), P("c", "J2", "J4"), V("v", "J2", "J3", "PRV", 20.0, D=0.15)])
